@@ -47,13 +47,13 @@ def new_spec(kind, semantics='standard', combined=False):
 
 
 def build(kind, text, variables, subspecs=(), consts=(), io_types=None, semantics='standard', unit=None,
-          period=None, pastify=False, combined=False, parse=True):
+          period=None, pastify=False, combined=False, parse=True, var_type='float'):
     """declare, configure and parse a specification.
     variables: iterable of names (declared float); subspecs: texts for add_sub_spec; consts: (name, type, value)
     io_types: {var: 'input'|'output'}; period: (value, unit[, tolerance])"""
     s = new_spec(kind, semantics, combined)
     for v in variables:
-        s.declare_var(v, 'float')
+        s.declare_var(v, var_type)
     for c in consts:
         s.declare_const(*c)
     if io_types:
